@@ -263,6 +263,7 @@ def attr_c04(ev, names):
 PROPS["C04"] = dict(
     mc=[("AlgLoops", None), ("AlgLoops", "AlgLoops_pinned", "expect-violation")],
     drivers=["total", "parse", "numdigits", "bigint"],
+    api_coverage=True,
     attr=attr_c04,
     rule="every exported entry point (driver table; coverage against `go doc` reported) is called under recover() and a "
          "watchdog on well-formed receivers/arguments (S, L, X incl. +-100000 exponents, specials with stale fields, heap "
